@@ -47,6 +47,7 @@ def make_service(reg):
         def on_connect(self, conn):
             self.n = 0
             self.lst = ["mine"]
+            self.cred = conn._config.get("credentials")
             with reg.lock:
                 reg.connects += 1
                 reg.hooks[id(self)] = 0
@@ -57,7 +58,7 @@ def make_service(reg):
 
         def exposed_inc(self):
             self.n += 1
-            return (self.n, id(self))
+            return (self.n, id(self), self.cred)
 
         def exposed_getlist(self):
             return self.lst
@@ -68,14 +69,51 @@ def authenticator(sock):
     from rpyc.utils.authenticators import AuthenticationError
     sock.settimeout(2)
     try:
-        got = sock.recv(len(MAGIC))
+        got = b""
+        while len(got) < len(MAGIC) + 8:
+            part = sock.recv(len(MAGIC) + 8 - len(got))
+            if not part:
+                break
+            got += part
+            if not MAGIC.startswith(got[:len(MAGIC)]):
+                break
     except socket.error:
         raise AuthenticationError("no credentials")
     finally:
         sock.settimeout(None)
-    if got != MAGIC:
+    if got[:len(MAGIC)] != MAGIC or len(got) < len(MAGIC) + 8:
         raise AuthenticationError("wrong magic word")
-    return sock, "authenticated"
+    # the credentials are the name the client announced: every connection must be served under its own
+    return sock, got[len(MAGIC):].decode("ascii", "replace").strip()
+
+
+def hello(name):
+    return MAGIC + name.encode("ascii")[:8].ljust(8)
+
+
+class PollRecorder(object):
+    """stands in for ThreadPoolServer.poll_object: forwards everything, remembers which descriptors are registered"""
+
+    def __init__(self, real):
+        self._real = real
+        self.registered = set()
+        self.calls = 0
+
+    def register(self, fd, mode):
+        r = self._real.register(fd, mode)
+        self.registered.add(fd)
+        return r
+
+    def modify(self, fd, mode):
+        return self._real.modify(fd, mode)
+
+    def unregister(self, fd):
+        self.registered.discard(fd)
+        return self._real.unregister(fd)
+
+    def poll(self, timeout=None):
+        self.calls += 1
+        return self._real.poll(timeout)
 
 
 class ServerFixture(object):
@@ -98,6 +136,9 @@ class ServerFixture(object):
             self.server = cls(make_service(self.reg), socket_path=self.path, **kw)
         else:
             self.server = cls(make_service(self.reg), hostname="127.0.0.1", port=0, **kw)
+        self.pollrec = None
+        if flavour == "pool" and hasattr(self.server, "poll_object"):
+            self.pollrec = self.server.poll_object = PollRecorder(self.server.poll_object)
         self.thread = self.server._start_in_thread()
         self.clients = {}      # name -> dict(sock, conn, sid, calls)
         self.closed = False
@@ -117,7 +158,7 @@ class ServerFixture(object):
         from rpyc.core.stream import SocketStream
         s = self.raw_socket()
         if self.auth:
-            s.sendall(MAGIC)
+            s.sendall(hello(name))
         conn = rpyc.connect_stream(SocketStream(s), config={"sync_request_timeout": CALL_TIMEOUT})
         self.clients[name] = {"sock": s, "conn": conn, "sid": None, "calls": 0, "objid": None}
         return conn
@@ -126,7 +167,9 @@ class ServerFixture(object):
         """-> ('ok', n, sid) | ('eof',) | ('timeout',) | ('exc', repr)"""
         c = self.clients[name]
         try:
-            n, sid = c["conn"].root.inc()
+            n, sid, cred = c["conn"].root.inc()
+            if self.auth and cred != name[:8]:
+                return ("credentials", cred, name)        # served under somebody else's credentials
             return ("ok", n, sid)
         except EOFError:
             return ("eof",)
@@ -165,7 +208,7 @@ class ServerFixture(object):
             return
         try:
             if self.auth:
-                s.sendall(b"WRONG" if kind == "auth_fail" else MAGIC)
+                s.sendall(b"WRONG" if kind == "auth_fail" else hello("bad"))
             if kind == "random_bytes":
                 s.sendall(bytes(rnd.getrandbits(8) for _ in range(rnd.randint(1, 200))))
             elif kind == "truncated_packet":
@@ -215,6 +258,15 @@ class ServerFixture(object):
                 pass
         return n
 
+    def poll_leftovers(self):
+        """descriptors still registered with the pool server's poll object that belong to no connection it serves"""
+        if self.pollrec is None:
+            return []
+        try:
+            return sorted(fd for fd in set(self.pollrec.registered) if fd not in self.server.fd_to_conn)
+        except Exception:
+            return []
+
     def listener_open(self):
         try:
             s = self.raw_socket()
@@ -222,7 +274,7 @@ class ServerFixture(object):
             return False
         try:
             if self.auth:
-                s.sendall(MAGIC)
+                s.sendall(hello("probe"))
             import rpyc
             from rpyc.core.stream import SocketStream
             conn = rpyc.connect_stream(SocketStream(s), config={"sync_request_timeout": 2})
@@ -325,6 +377,10 @@ def replay_path(chk, g, path, flavour, transport, auth, rnd, focus):
             if not wait_for(lambda: fx.tracked() <= n_tracked, 4):
                 bad.append(("left-behind:%s" % name, "%s the server still holds %d client connection(s), %d are being served" % (
                     where, fx.tracked(), n_tracked), "c17"))
+                break
+            if not wait_for(lambda: not fx.poll_leftovers(), 3):
+                bad.append(("poll-left-behind:%s" % name, "%s the server's poll set still holds descriptor(s) %s of departed clients" % (
+                    where, fx.poll_leftovers()), "c17"))
                 break
             for c, info in fx.clients.items():
                 if st["cst"][c] == "up" and st["eof"][c]:
